@@ -415,6 +415,33 @@ func randScalarPB(r *rand.Rand, k protoreflect.Kind, maxStr int) protoreflect.Va
 	panic("kind " + k.String())
 }
 
+// highBitValue: a finite value of a fixed-width kind whose bytes all have the high bit set (oneLow: all but one)
+func highBitValue(r *rand.Rand, k protoreflect.Kind, oneLow bool) (protoreflect.Value, bool) {
+	b32 := []uint32{0xFFFFFFFF, 0xFFC0C0C0, 0x80808080, 0xFFFFFFFE, 0xBF8080FF}[r.Intn(5)]
+	b64 := []uint64{0xFFFFFFFFFFFFFFFF, 0xFFC0C0C0FFC0C0C0, 0x8080808080808080, 0xFFFFFFFFFFFFFFFE, 0xBFF0808080808080}[r.Intn(5)]
+	f32 := []uint32{0xC0C0C0C0, 0xBF8080FF, 0x80808080, 0xFEFEFEFE}[r.Intn(4)]
+	f64 := []uint64{0xC0C0C0C0C0C0C0C0, 0xBFF0808080808080, 0x8080808080808080, 0xFEFEFEFEFEFEFEFE}[r.Intn(4)]
+	if oneLow {
+		b32, f32 = b32&^0xFF|0x7F, f32&^0xFF|0x7F
+		b64, f64 = b64&^0xFF|0x7F, f64&^0xFF|0x7F
+	}
+	switch k {
+	case protoreflect.Fixed32Kind:
+		return protoreflect.ValueOfUint32(b32), true
+	case protoreflect.Sfixed32Kind:
+		return protoreflect.ValueOfInt32(int32(b32)), true
+	case protoreflect.FloatKind:
+		return protoreflect.ValueOfFloat32(math.Float32frombits(f32)), true
+	case protoreflect.Fixed64Kind:
+		return protoreflect.ValueOfUint64(b64), true
+	case protoreflect.Sfixed64Kind:
+		return protoreflect.ValueOfInt64(int64(b64)), true
+	case protoreflect.DoubleKind:
+		return protoreflect.ValueOfFloat64(math.Float64frombits(f64)), true
+	}
+	return protoreflect.Value{}, false
+}
+
 type pbGenCfg struct {
 	maxStr   int
 	finite   bool // only finite floats
@@ -452,6 +479,17 @@ func randMsgPB(r *rand.Rand, md protoreflect.MessageDescriptor, depth int, cfg p
 		case fd.IsList():
 			l := m.Mutable(fd).List()
 			n := r.Intn(4)
+			if hv, ok := highBitValue(r, fd.Kind(), false); ok && r.Intn(3) == 0 {
+				// a fixed-width list whose payload bytes nearly all have the high bit set (-1, colours, negative floats), with the
+				// odd low byte: counting bytes below 0x80 says nothing about the number of elements
+				_ = hv
+				n = 2 + r.Intn(8)
+				for j := 0; j < n; j++ {
+					v, _ := highBitValue(r, fd.Kind(), r.Intn(5) == 0)
+					l.Append(v)
+				}
+				continue
+			}
 			for j := 0; j < n; j++ {
 				l.Append(val(fd))
 			}
